@@ -104,7 +104,7 @@ Logged ==
     \/ IsEvent("ReadFail") /\ ReadFail
     \/ IsEvent("ConnClose") /\ ConnClose
     \/ IsEvent("Close") /\ (ExtClose \/ (closed /\ UNCHANGED vars))
-    \/ IsEvent("Cancel") /\ (Cancel(Ev.c) \/ (pc[Ev.c] \in {"unreg", "done"} /\ UNCHANGED vars))
+    \/ IsEvent("Cancel") /\ (Cancel(Ev.c) \/ ((pc[Ev.c] \in {"wfailed", "unreg", "done"} \/ ctxDone[Ev.c]) /\ UNCHANGED vars))
     \/ IsEvent("ExchangeEnd") /\ EndEv(Ev.c)
     \/ IsEvent("Stuck") /\ StuckEv(Ev.c)
     \/ IsEvent("Bulk") /\ BulkEv
